@@ -20,7 +20,7 @@ from . import spec as S
 from .contract import Case, Contract, Ctx, Outcome, Scenario, REGISTRY
 from .extract import Package
 from .interp import Interp, PyExc, StopPath, exc_isa
-from .sym import (Explorer, Heap, Infeasible, Obj, Path, Unsupported, VExc,
+from .sym import (VGen, VTuple, Explorer, Heap, Infeasible, Obj, Path, Unsupported, VExc,
                   VObj, V)
 from .solve import check_unsat, Verdict
 
@@ -185,6 +185,12 @@ def _verify_scenario(pkg, fi, contract: Contract, sc: Scenario, summaries,
                 v = interp.run_function(fi, pos, dict(sc.kwargs))
                 if sc.constructing:
                     v = self_obj
+                if isinstance(v, VGen):
+                    # a returned generator expression is consumed at the return
+                    # point, while the path is still being explored (its filter
+                    # conditions are decisions of this path); sound for
+                    # generators over immutable items, which is all term.py has
+                    v = VTuple(list(v.iterator()))
                 outcome = Outcome("return", v, None, path.heap)
             except PyExc as e:
                 outcome = Outcome("raise", None, e.exc, path.heap)
